@@ -30,6 +30,7 @@
 -/
 import Fsel.Lemmas.Walk
 import Fsel.Lemmas.WalkB
+import Fsel.Model.Main
 
 namespace Fsel.C01
 open Fsel WalkL WalkB
@@ -257,7 +258,8 @@ theorem bfs_root_exact (p : Plan) (rp : RootParams) (hl : NoLimit p) (path canon
     | .error a => bfsRoot p rp path canon kids st = .error a
     | .ok rs' => ∃ w', bfsRoot p rp path canon kids st = .ok { res := rs', walk := w' } ∧
         w'.errPaths = st.walk.errPaths ++ levelFaults rp [rootItem path canon kids] ∧
-        w'.errCount = st.walk.errCount + (levelFaults rp [rootItem path canon kids]).length := by
+        w'.errCount = st.walk.errCount + (levelFaults rp [rootItem path canon kids]).length ∧
+        (∀ i, i ∈ w'.visited → i ∈ st.walk.visited ∨ i ∈ inodesL kids) := by
   rw [bfsRoot_eq_drain p rp path canon kids st hq]
   have hsz : qSize [rootItem path canon kids] ≤ Node.countDirsList kids + 1 + 1 := by
     rw [qSize_cons, qSize_nil]; simp only [rootItem]; omega
@@ -268,7 +270,7 @@ theorem bfs_root_exact (p : Plan) (rp : RootParams) (hl : NoLimit p) (path canon
     (by intro it hit; simp only [List.mem_singleton] at hit; subst hit; exact hg)
     (by simpa [hqi] using hnd)
     (by simpa [hqi] using hfresh)
-  simp only [he, hf] at h
+  simp only [he, hf, hqi] at h
   exact h
 
 /-- **bfs and dfs return the same set**: the level order of the root is a permutation of the pre-order -/
@@ -304,6 +306,150 @@ theorem searchRoot_bfs (p : Plan) (root : Root) (e : Entry) (kids : List Node) (
         { st with walk := markVisited { st.walk with queue := [] } e.ino } := by
   simp only [searchRoot, hb, if_true, bfsRoot, rootItem]
   rfl
+
+/-! ### several roots -/
+
+/-- a search root that resolves to a listable directory -/
+structure RootRec where
+  root : Root
+  e : Entry
+  kids : List Node
+  canon : Str
+
+def RootRec.rp (r : RootRec) : RootParams := rootParams r.root r.canon
+
+/-- what one root reports: level order (bfs, the default) or pre-order (dfs) -/
+def RootRec.events (r : RootRec) : List (Node × Entry × Nat) :=
+  if r.rp.bfs then levelOrder r.rp [rootItem r.root.path r.canon r.kids]
+  else eventsL r.rp r.root.path r.canon 1 r.kids
+
+/-- the inode numbers a root can record: the root directory itself, its sub-directories and links -/
+def RootRec.inos (r : RootRec) : List Nat := r.e.ino :: inodesL r.kids
+
+/-- a plain root: no `regexp`, `symlinks` or ignore option in force, resolving to a listable directory -/
+def PlainRoot (p : Plan) (fs : FSnap) (r : RootRec) : Prop :=
+  r.root.options.regexp = false ∧ r.root.options.symlinks = false ∧
+  ignoreApplies r.root.options.gitignore p.cfg.gitignore = false ∧
+  ignoreApplies r.root.options.hgignore p.cfg.hgignore = false ∧
+  ignoreApplies r.root.options.dockerignore p.cfg.dockerignore = false ∧
+  resolveRoot fs r.root.path = .ok (.dir r.e true r.kids r.canon) ∧
+  goodL r.kids ∧ 1 < r.canon.length
+
+/-- the roots one after the other, each reporting its own events with its own depth window -/
+def foldRoots (p : Plan) : ResSt → List RootRec → Except Abort ResSt
+  | rs, [] => .ok rs
+  | rs, r :: t =>
+    match foldReport p r.rp rs r.events with
+    | .error a => .error a
+    | .ok rs' => foldRoots p rs' t
+
+theorem markVisited_fresh (w : WalkSt) (i : Nat) (h : i ∉ w.visited) :
+    markVisited w i = { w with visited := w.visited ++ [i] } := by
+  unfold markVisited
+  have : w.visited.contains i = false := by
+    cases hc : w.visited.contains i with
+    | false => rfl
+    | true => exact absurd (List.contains_iff_mem.mp hc) h
+  simp only [this, Bool.false_eq_true, if_false]
+
+/-- one plain root, either traversal: the result is `check_file` folded over the root's events, and the
+    traversal state only gains inode numbers of that root -/
+theorem one_root_exact (p : Plan) (hl : NoLimit p) (r : RootRec) (st : WSt)
+    (hnd : r.inos.Nodup) (hfresh : ∀ i ∈ r.inos, i ∉ st.walk.visited) (hg : goodL r.kids) (hc : 1 < r.canon.length) :
+    match foldReport p r.rp st.res r.events with
+    | .error a => searchRoot p r.root (.dir r.e true r.kids r.canon) st = .error a
+    | .ok rs' => ∃ w', searchRoot p r.root (.dir r.e true r.kids r.canon) st = .ok { res := rs', walk := w' } ∧
+        (∀ i, i ∈ w'.visited → i ∈ st.walk.visited ∨ i ∈ r.inos) := by
+  have hroot : r.e.ino ∉ st.walk.visited := hfresh _ (by simp [RootRec.inos])
+  have hnd' := List.nodup_cons.mp hnd
+  have hmv := markVisited_fresh { st.walk with queue := [] } r.e.ino hroot
+  by_cases hb : r.rp.bfs = true
+  · -- breadth-first
+    rw [searchRoot_bfs p r.root r.e r.kids r.canon st hb]
+    simp only [RootRec.events, hb, if_true]
+    rw [hmv]
+    have h := bfs_root_exact p r.rp hl r.root.path r.canon r.kids
+      { st with walk := { st.walk with queue := [], visited := st.walk.visited ++ [r.e.ino] } } rfl hg hnd'.2
+      (by intro i hi hv
+          simp only [List.mem_append, List.mem_singleton] at hv
+          rcases hv with h | h
+          · exact hfresh i (by simp [RootRec.inos, hi]) h
+          · subst h; exact hnd'.1 hi)
+    simp only at h
+    cases hf : foldReport p r.rp st.res (levelOrder r.rp [rootItem r.root.path r.canon r.kids]) with
+    | error a => rw [hf] at h; exact h
+    | ok rs' =>
+      rw [hf] at h
+      obtain ⟨w', h1, _, _, h4⟩ := h
+      refine ⟨w', h1, ?_⟩
+      intro i hi
+      rcases h4 i hi with h | h
+      · simp only [List.mem_append, List.mem_singleton] at h
+        rcases h with h | h
+        · exact Or.inl h
+        · right; subst h; simp [RootRec.inos]
+      · right; simp [RootRec.inos, h]
+  · -- depth-first
+    have hbf : r.rp.bfs = false := by cases h : r.rp.bfs <;> simp_all
+    simp only [RootRec.events, hbf, Bool.false_eq_true, if_false]
+    have hsr : searchRoot p r.root (.dir r.e true r.kids r.canon) st =
+        visitDirD p r.rp r.root.path r.canon true r.kids
+          { st with walk := { st.walk with queue := [], visited := st.walk.visited ++ [r.e.ino] } } := by
+      simp only [searchRoot, RootRec.rp] at hbf ⊢
+      simp only [hbf, Bool.false_eq_true, if_false, hmv]
+    rw [hsr]
+    have h := dfs_root_exact p r.rp hl r.root.path r.canon r.kids
+      { st with walk := { st.walk with queue := [], visited := st.walk.visited ++ [r.e.ino] } } hc
+      (by simp [RootRec.rp, rootParams]) hg hnd'.2
+      (by intro i hi hv
+          simp only [List.mem_append, List.mem_singleton] at hv
+          rcases hv with h | h
+          · exact hfresh i (by simp [RootRec.inos, hi]) h
+          · subst h; exact hnd'.1 hi)
+    cases hf : foldReport p r.rp st.res (eventsL r.rp r.root.path r.canon 1 r.kids) with
+    | error a => rw [hf] at h; exact h
+    | ok rs' =>
+      rw [hf] at h
+      obtain ⟨w', hwa, h1⟩ := h
+      refine ⟨w', h1, ?_⟩
+      intro i hi
+      rcases hwa.sub i hi with h | h
+      · simp only [List.mem_append, List.mem_singleton] at h
+        rcases h with h | h
+        · exact Or.inl h
+        · right; subst h; simp [RootRec.inos]
+      · right; simp [RootRec.inos, h]
+
+/-- **several disjoint roots**: the roots are searched one after the other; each reports exactly its own
+    events (its own depth window and traversal mode); nothing of one root is lost or repeated because of
+    another.  Disjointness = the directory/link inode numbers of the roots are pairwise distinct. -/
+theorem roots_exact (p : Plan) (fs : FSnap) (multi : Bool) (hl : NoLimit p) :
+    ∀ (recs : List RootRec) (st : WSt), (∀ r ∈ recs, PlainRoot p fs r) →
+      (recs.flatMap RootRec.inos).Nodup → (∀ i ∈ recs.flatMap RootRec.inos, i ∉ st.walk.visited) →
+      match foldRoots p st.res recs with
+      | .error a => searchRoots p fs multi (recs.map (·.root)) st = .error a
+      | .ok rs' => ∃ w', searchRoots p fs multi (recs.map (·.root)) st = .ok { res := rs', walk := w' }
+  | [], st, _, _, _ => by
+    simp only [foldRoots, List.map_nil, searchRoots]
+    exact ⟨st.walk, rfl⟩
+  | r :: t, st, hp, hnd, hfr => by
+    obtain ⟨h1, h2, h3, h4, h5, h6, h7, h8⟩ := hp r (by simp)
+    simp only [List.flatMap_cons] at hnd hfr
+    obtain ⟨hndr, hndt, hdisj⟩ := List.nodup_append.mp hnd
+    have hone := one_root_exact p hl r st hndr (fun i hi => hfr i (List.mem_append.mpr (Or.inl hi))) h7 h8
+    simp only [foldRoots, List.map_cons, searchRoots, h1, h2, h3, h4, h5, h6, Bool.false_eq_true, if_false, Bool.or_self]
+    cases hf : foldReport p r.rp st.res r.events with
+    | error a => rw [hf] at hone; simp only at hone ⊢; rw [hone]
+    | ok rs1 =>
+      rw [hf] at hone
+      obtain ⟨w1, hs1, hv1⟩ := hone
+      simp only [hs1]
+      have ih := roots_exact p fs multi hl t { res := rs1, walk := w1 } (fun x hx => hp x (by simp [hx])) hndt
+        (by intro i hi hv
+            rcases hv1 i hv with h | h
+            · exact hfr i (List.mem_append.mpr (Or.inr hi)) h
+            · exact hdisj i h i hi rfl)
+      exact ih
 
 /-- the root "/" is excluded for a reason (D58): `calc_depth` counts slashes, and "/" and "/usr" both
     have one, so a child of "/" is not seen as one level deeper -/
